@@ -48,8 +48,14 @@ def gen_faults(rng, data, bounds=None, framer_name=None, max_faults=3, kinds=Non
         if kind == 'flip':
             faults.append({'k': 'flip', 'at': _pos(rng, n, starts), 'bit': rng.randrange(8)})
         elif kind == 'set':
-            faults.append({'k': 'set', 'at': _pos(rng, n, starts),
-                           'val': rng.choice(INTERESTING_BYTES) if rng.random() < 0.7 else rng.getrandbits(8)})
+            separators = [i for i in range(n - 1) if data[i] in b'.,;:=/-@ ' and data[i + 1] not in b'.,;:=/-@ ']
+            if separators and rng.random() < 0.25:
+                # a doubled separator (empty label / empty element) that keeps every length field intact
+                at = rng.choice(separators)
+                faults.append({'k': 'set', 'at': at + 1, 'val': data[at]})
+            else:
+                faults.append({'k': 'set', 'at': _pos(rng, n, starts),
+                               'val': rng.choice(INTERESTING_BYTES) if rng.random() < 0.7 else rng.getrandbits(8)})
         elif kind == 'lenfield':
             lf = framer_mod.LENGTH_FIELD.get(framer_name)
             if lf and rng.random() < 0.5:
@@ -129,7 +135,7 @@ TOKENS = (
     b'0', b'1', b'-1', b'5', b'1.5', b'1e400', b'-0', b'NaN', b'Infinity', b'null', b'true', b'false', b'[]', b'{}', b'""',
     b'[1]', b'"a"', b'[null]', b'{"a": 1}', b'["report_to", "max_age"]', b'"report_to max_age"', b'{"max_age": {}}',
     b'{"report_to": 1, "max_age": "x"}', b'*', b"'none'", b"'self'", b'=', b'==', b';', b',', b' ', b'""""', b'a=b=c',
-    b'9' * 40, b'max-age=', b'max-age=-1', b'max-age=1e3', b'max-age="1"', b'v=', b'v=spf1', b'ip4:', b'ip4:1.2.3.4/33',
+    b'9' * 40, b'9' * 5000, b'1' * 4301, b'0.' + b'9' * 5000, b'max-age=', b'max-age=-1', b'max-age=1e3', b'max-age="1"', b'v=', b'v=spf1', b'ip4:', b'ip4:1.2.3.4/33',
     b'ip6:::1/129', b'ip4:::1', b'ip6:1.2.3.4', b'a:/', b'mx://', b'%{', b'%{z}', b'exists:%', b'sha256-', b"'sha256-'",
     b"'nonce-'", b"'sha999-YQ=='", b'http://[', b'http://[::1', b'//', b':', b'::', b'\r\n', b'\r\n\r\n', b'\x00',
     b'{x}=y', b'{0}', b'{}', b'{{k}}=v', b'%s', b'%(a)s=1', b'a{b=c', b'}', b'\\', b'`x`', b'<b>', b'*x*', b'# h', b'a|b',
